@@ -720,8 +720,9 @@ class Type3Tag(nfc.tag.Tag):
                 raise Type3TagCommandError(nfc.tag.TIMEOUT_ERROR)
             if type(error) is nfc.clf.TransmissionError:
                 raise Type3TagCommandError(nfc.tag.RECEIVE_ERROR)
-            if type(error) is nfc.clf.ProtocolError:  # pragma: no branch
+            if type(error) is nfc.clf.ProtocolError:
                 raise Type3TagCommandError(nfc.tag.PROTOCOL_ERROR)
+            raise RuntimeError("unexpected " + repr(error))
 
         if rsp[0] != len(rsp):
             log.debug("incorrect response length {0:02x}".format(rsp[0]))
